@@ -55,16 +55,21 @@ def mk_register_classes(regs):
     from cfinterface.components.line import Line
     from cfinterface.components.register import Register
 
-    out = []
+    out, bases = [], []
     for i, rd in enumerate(regs):
         fields = [codec.mk_field(fd) for fd in rd["fields"]]
         delim = rd.get("delimiter")
         delim = None if delim is None else codec.dec_data(delim)
+        # every second declared type DERIVES from the type declared just before it and overrides every
+        # declaration (a later version of a record): what a type declares itself wins over whatever its
+        # parent declared, cached or computed
+        parent = out[i - 1] if i % 2 == 1 else Register
         cls = type(
             f"Reg{i}",
-            (Register,),
+            (parent,),
             {"IDENTIFIER": codec.dec_str(rd["ident"]), "IDENTIFIER_DIGITS": rd["digits"], "LINE": Line(fields, delimiter=delim), "__slots__": []},
         )
+        bases.append(cls)
         out.append(derived(cls, i))
     return out
 
@@ -95,6 +100,15 @@ def mk_register_file(regs, storage="TEXT", classes=None, io=None):
     if io:
         ns["ENCODING"] = io["enc"]
     return derived(type("RF", (RegisterFile,), ns), len(regs)), classes
+
+
+PATH_LIKE = [".", "..", "/", "/tmp", "/dev/null", "/dev/zero", "./", "/usr/bin"]
+
+
+def path_like(rng):
+    """an in-memory content that happens to NAME something that exists without being a regular file (a
+    directory, a device): it is content — one line without a newline — and is read as such"""
+    return rng.choice(PATH_LIKE)
 
 
 # ---- I/O routes of a text file: in memory (content string / StringIO) or through paths on disk.
